@@ -58,6 +58,9 @@ type Gen struct {
 	R      Restrict
 	Labels []string
 	nlabel int
+	// fwd: labels that are used before their definition, which Doc appends at
+	// the end of the document
+	fwd map[string]bool
 }
 
 var words = []string{"a", "b", "foo", "bar", "baz", "Qux", "x1", "é", "猫", "ß", "word", "I", "42", "7", "Z"}
@@ -68,6 +71,11 @@ func (g *Gen) pick(label string, n int) int { return g.C.Pick(label, n) }
 
 func (g *Gen) word() string { return words[g.pick("word", len(words))] }
 
+// syntaxWords are literal text that looks like markup: the serializer has to
+// escape them character by character, and everything downstream (parser,
+// renderer, formatter) has to keep them literal.
+var syntaxWords = []string{"&amp;", "&#35;", "&copy;", "&x;", "&#x41;", "<b>", "</i>", "*a*", "_b_", "**s**", "`c`", "[x](y)", "[r]", "![i](u)", "1.", "2)", "#", "##", "<!--", "-->", "http://x.y", "<http://a.b>", "a@b.c", "\\", "\\*", "~~~", "---", "===", ">", "+", "-", "***", "&amp", "&#;", "<a@b.c>", "]", "](", "[", "``", "|", "a_b_c", "a*b*c", "__", "'t'", "\"q\""}
+
 // text: 1-4 atoms (words or single punctuation characters) mostly separated by
 // single spaces.
 func (g *Gen) text() string {
@@ -77,7 +85,13 @@ func (g *Gen) text() string {
 		if i > 0 && g.pick("sp", 4) != 0 {
 			sb.WriteString(" ")
 		}
-		if g.pick("punct?", 3) == 0 {
+		if k := g.pick("punct?", 7); k == 6 {
+			w := syntaxWords[g.pick("syntaxword", len(syntaxWords))]
+			if g.R.FormatSafeText && strings.ContainsAny(w, "+!") {
+				w = "w"
+			}
+			sb.WriteString(w)
+		} else if k < 2 {
 			c := puncts[g.pick("punct", len(puncts))]
 			if g.R.FormatSafeText && (c == '+' || c == '!') {
 				c = ','
@@ -197,7 +211,7 @@ func (g *Gen) inlines(depth int, c ictx) []*Inline {
 			cc := c
 			cc.inLink = true
 			in = &Inline{K: Link, Kids: g.inlines(depth-1, cc), Dest: g.dest(), Title: g.title(c.multi && !(c.cont && g.R.NoMultiLineInContainer))}
-			if len(g.Labels) > 0 && g.pick("ref?", 3) == 0 {
+			if len(g.Labels) > 0 && g.pick("ref?", 2) == 0 {
 				g.makeRef(in)
 			}
 		case 9:
@@ -456,6 +470,18 @@ type bctx struct {
 }
 
 func (g *Gen) refdef() *Block {
+	if len(g.Labels) > 0 && g.pick("duplabel", 5) == 0 {
+		// a competing definition of a label that is already defined earlier in
+		// the document (possibly in another case): the first one wins, so this
+		// one changes nothing
+		lbl := g.Labels[g.pick("duplabelpick", len(g.Labels))]
+		if !g.fwd[lbl] {
+			if g.pick("dupcase", 2) == 0 {
+				lbl = strings.ToUpper(lbl)
+			}
+			return &Block{K: RefDef, Label: lbl, Dest: g.dest(), Title: g.title(true)}
+		}
+	}
 	g.nlabel++
 	lbl := fmt.Sprintf("ref%d", g.nlabel)
 	if g.pick("lblspace", 3) == 0 {
@@ -691,5 +717,27 @@ func (g *Gen) tightSequence(it []*Block, c bctx) []*Block {
 
 // Doc generates a document.
 func (g *Gen) Doc() []*Block {
-	return g.blocks(bctx{depth: g.Sz.Depth}, 1+g.pick("ndoc", g.Sz.MaxBlocks))
+	// one document in three uses labels whose definitions follow at the end
+	var fwd []string
+	if g.pick("fwdlabels", 3) == 0 {
+		g.fwd = map[string]bool{}
+		for i, n := 0, 1+g.pick("nfwd", 2); i < n; i++ {
+			lbl := fmt.Sprintf("fwd%d", i+1)
+			if i == 1 {
+				lbl = "later one"
+			}
+			fwd = append(fwd, lbl)
+			g.fwd[lbl] = true
+			g.Labels = append(g.Labels, lbl)
+		}
+	}
+	doc := g.blocks(bctx{depth: g.Sz.Depth}, 1+g.pick("ndoc", g.Sz.MaxBlocks))
+	for _, lbl := range fwd {
+		b := &Block{K: RefDef, Label: lbl, Dest: g.dest(), Title: g.title(true)}
+		if g.pick("fwdinquote", 4) == 0 {
+			b = &Block{K: Quote, Kids: []*Block{b}}
+		}
+		doc = append(doc, b)
+	}
+	return doc
 }
